@@ -10,7 +10,7 @@
                                     4.. not listed
    Obj k      = k-th instance made by the harness, of harness class A (k even) or B (k odd)
    Foreign k  = an object that is not an instance of the manager's backend class *)
-From Coq Require Import List Arith Bool NArith.
+From Coq Require Import List Arith Bool NArith ZArith Uint63.
 From TLV Require Import Model.Backend Corr.Common.
 Import ListNotations.
 
@@ -81,9 +81,9 @@ Definition agree_h (c : hcase) : bool :=
   let s := init (own_of own0) in
   all_seen tenalg s ths xs0 && check tenalg ths s es.
 
-(* ---- compact transport format.  Elaborating tens of thousands of nested list literals costs Coq
-   ~10 ms per history, so the harness ships every history + observations as ONE number: a stream of
-   base-64 digits, least significant first, closed by a final digit 1:
+(* ---- compact transport format.  Elaborating tens of thousands of nested list literals (or of long
+   binary numerals) costs Coq several ms per history, so the harness ships every history + observations
+   as a stream of base-64 digits:
      tenalg, nthreads, main_holds_selection, seen * nthreads, nsteps,
      then per step: kind (0 set, 1 enter, 2 exit), thread, a, b, c, outcome, seen * nthreads
        set/enter: a = selector kind (0 name, 1 instance, 2 non-instance), b = its index, c = local flag
@@ -91,22 +91,26 @@ Definition agree_h (c : hcase) : bool :=
        outcome  : 0 done, 1 rejected, 2 exit failed, 3 no context
      seen = two digits: code of the name get_backend() returned (63 = a name outside the tables),
             executing object (0 unmarked stock object, 1 unidentified, 2+n Named n, 8+k Obj k) *)
-(* the digits are read off the binary representation directly (6 bits per digit, the closing digit 1 is
-   the leading bit of the positive): linear in the size of the number, no division *)
-Fixpoint pbits (p : positive) : list bool :=
-  match p with xH => [] | xO q => false :: pbits q | xI q => true :: pbits q end.
+(* the digit stream travels as a list of primitive 63-bit integers (literals of primitive integers
+   are parsed natively: no unary / binary numeral has to be normalised while the file is read): the
+   first integer is the number of digits, every further one carries 10 digits, least significant first *)
+Definition d2n (i : int) : nat := Z.to_nat (Uint63.to_Z i).
 
-Definition b2n (b : bool) : nat := if b then 1 else 0.
+Fixpoint dig10 (n : nat) (i : int) : list nat :=
+  match n with O => [] | S n' => d2n (Uint63.land i 63) :: dig10 n' (Uint63.lsr i 6) end.
 
-Fixpoint group6 (l : list bool) : list nat :=
-  match l with
-  | b0 :: b1 :: b2 :: b3 :: b4 :: b5 :: r =>
-      (b2n b0 + 2 * (b2n b1 + 2 * (b2n b2 + 2 * (b2n b3 + 2 * (b2n b4 + 2 * b2n b5))))) :: group6 r
-  | _ => []
+Definition digits (l : list int) : list nat :=
+  match l with [] => [] | n :: r => firstn (d2n n) (flat_map (dig10 10) r) end.
+
+(* the same packing, for hand-written cases and the self-test below *)
+Fixpoint pack1 (ds : list nat) : int :=
+  match ds with [] => 0%uint63 | d :: r => Uint63.add (Uint63.of_Z (Z.of_nat d)) (Uint63.mul 64%uint63 (pack1 r)) end.
+Fixpoint pack_chunks (fuel : nat) (ds : list nat) : list int :=
+  match fuel, ds with
+  | S f, _ :: _ => pack1 (firstn 10 ds) :: pack_chunks f (skipn 10 ds)
+  | _, _ => []
   end.
-
-Definition digits (x : N) : list nat :=
-  match x with N0 => [] | Npos p => group6 (pbits p) end.
+Definition pack (ds : list nat) : list int := Uint63.of_Z (Z.of_nat (length ds)) :: pack_chunks (length ds) ds.
 
 Definition dec_tok (d : nat) : option inst :=
   match d with 0 => None | 1 => Some (Foreign 99) | _ => if d <? 8 then Some (Named (d - 2)) else Some (Obj (d - 8)) end.
@@ -146,7 +150,7 @@ Fixpoint dec_steps (nth n : nat) (l : list nat) : option (list entry) :=
       end
   end.
 
-Definition decode (x : N) : option hcase :=
+Definition decode (x : list int) : option hcase :=
   match digits x with
   | ta :: nth :: own :: l =>
       match dec_seen nth l with
@@ -161,7 +165,7 @@ Definition decode (x : N) : option hcase :=
   end.
 
 (* a case: (id, encoded history with observations).  An undecodable case counts as failing. *)
-Definition case := (N * N)%type.
+Definition case := (N * list int)%type.
 Definition agree (c : case) : bool := match decode (snd c) with Some h => agree_h h | None => false end.
 Definition ident (c : case) : nat := N.to_nat (fst c).
 Definition failing := failing_ids agree ident.
@@ -180,9 +184,11 @@ Definition x_ (q : nat) : seen := (q, Some (Foreign 99)).    (* ... by an object
    structure, agrees, and stops agreeing when one observation is altered *)
 Example decode_example :
   (* tenalg=0, 2 threads, main holds; seen: (0,Named 0) (0,Named 0); 1 step: Set_ 1 (so 1) true, done; seen (0,Named 0) (2,Obj 1) *)
-  let ds := [0;2;1; 0;2; 0;2; 1; 0;1;1;1;1;0; 0;2; 2;9; 1] in
-  let x := fold_right (fun d acc => (N.of_nat d + 64 * acc)%N) 0%N ds in
-  decode x = Some (false, [(0, Named 0)], [0;1], [n_ 0 0; n_ 0 0], [(Set_ 1 (so 1) true, ODone, [n_ 0 0; o_ 2 1])]) /\
-  agree (0%N, x) = true /\
-  agree (0%N, (x + 64 ^ 17)%N) = false.
+  let ds := [0;2;1; 0;2; 0;2; 1; 0;1;1;1;1;0; 0;2; 2;9] in
+  let ds' := [0;2;1; 0;2; 0;2; 1; 0;1;1;1;1;0; 0;2; 2;10] in
+  digits (pack ds) = ds /\
+  decode (pack ds) = Some (false, [(0, Named 0)], [0;1], [n_ 0 0; n_ 0 0], [(Set_ 1 (so 1) true, ODone, [n_ 0 0; o_ 2 1])]) /\
+  agree (0%N, pack ds) = true /\
+  agree (0%N, pack ds') = false /\
+  agree (0%N, pack (ds ++ [0])) = false.
 Proof. vm_compute. repeat split. Qed.
